@@ -11,13 +11,13 @@ import (
 )
 
 func init() {
-	register(&Rule{ID: "C04.R1", Min: 4,
+	register(&Rule{ID: "C04.R1", Min: 3,
 		Text: "panic census: every explicit panic reachable from the exported API is one of the tabled, provably-unreachable ones (roundAddOne negative, Condition.String default, Decompose default); Condition.String has a case for every declared flag and Decompose for every Form",
 		Run:  rulePanicCensus})
-	register(&Rule{ID: "C04.R2", Min: 15,
+	register(&Rule{ID: "C04.R2", Min: 12,
 		Text: "nil never reaches a dereferencing parameter: a pointer argument that may be nil (nil constant, φ with a nil edge, never-assigned local) is only passed to parameters the callee compares with nil before use",
 		Run:  ruleNilArgs})
-	register(&Rule{ID: "C04.R3", Min: 12,
+	register(&Rule{ID: "C04.R3", Min: 9,
 		Text: "divisors are non-zero and table indices bounded: every big-integer division outside the BigInt wrappers divides by a power of ten from tableExp10/exp10, a non-zero package constant, or a value derived from an operand after that operand's IsZero test failed; every variable index into a package-level table is under an upper-bound guard",
 		Run:  ruleDivisorsAndIndices})
 }
